@@ -1,0 +1,63 @@
+//go:build verif
+
+// Contracts for the two BeginBlock hooks of package app that pay matured network-delegation amounts
+// (C12 maturity, C02 conservation, C03).  Comment-only file, read by /verif/govc.
+//
+// Vocabulary (data/network_delegation): ndRaw/ndPend/ndPendTotal (pending undelegations),
+// ndRRaw/ndRewPend/ndRPendTotal (pending reward withdrawals), ndScanA/ndScanCount
+// (what Store.IteratePendingAmounts visits), ndPDA/ndPDCount (what DelegRewardStore.IteratePD visits).
+
+package app
+
+// ================================================================ addMaturedAmountsToBalance (undelegations)
+//
+// H = req.Header.Height, D = ctx.netwkDelegators.Deleg, B = ctx.balances.
+// D.IteratePendingAmounts(H) visits exactly the pending records of height H (scan prefix with separator,
+// proved in data/network_delegation since repair 5f46b28), so all clauses are unconditional:
+// every visited record (H,d) is paid to d and zeroed, nothing else changes, paid == zeroed.
+//@ func addMaturedAmountsToBalance
+//@   requires ctx != nil && ctx.netwkDelegators != nil && ctx.netwkDelegators.Deleg != nil && ctx.balances != nil && req != nil && curOK(ctx.currencies) && has(ctx.currencies.nameMap, "OLT")
+//@   requires forall k string :: ndRaw(ctx.netwkDelegators.Deleg)[k] >= 0                                                          // C12.records-non-negative
+//@   modifies ctx.netwkDelegators.Deleg.State, ctx.balances.State, ndLastScan(ctx.netwkDelegators.Deleg), ndRaw(ctx.netwkDelegators.Deleg), ndHas(ctx.netwkDelegators.Deleg), ndOK(ctx.netwkDelegators.Deleg), ndPendTotal(ctx.netwkDelegators.Deleg), bal(ctx.balances), balTotal(ctx.balances), vHas(ctx.deliver), vVal(ctx.deliver)
+//@   invariant iter1: !$stopped && delegStore == ctx.netwkDelegators.Deleg && balanceStore == ctx.balances && height == req.Header.Height && c.Name == "OLT"
+//@   invariant iter1: forall k string :: ndRaw(ctx.netwkDelegators.Deleg)[k] >= 0                                                  // C12.records-non-negative
+//@   invariant iter1: forall k string :: ndRaw(ctx.netwkDelegators.Deleg)[k] == old(ndRaw(ctx.netwkDelegators.Deleg))[k] || (ndRaw(ctx.netwkDelegators.Deleg)[k] == 0 && ndIsPend(ctx.netwkDelegators.Deleg, k))   // C12.only-zeroing
+//@   invariant iter1: forall j int :: 0 <= j && j < $n ==> ndPend(ctx.netwkDelegators.Deleg, req.Header.Height, bytes(ndScanA(ctx.netwkDelegators.Deleg, req.Header.Height, j))) == 0                         // C12.paid-record-cleared
+//@   invariant iter1: forall j int :: $n <= j && j < ndScanCount(ctx.netwkDelegators.Deleg, req.Header.Height) ==> ndPend(ctx.netwkDelegators.Deleg, req.Header.Height, bytes(ndScanA(ctx.netwkDelegators.Deleg, req.Header.Height, j))) == old(ndPend(ctx.netwkDelegators.Deleg, req.Header.Height, bytes(ndScanA(ctx.netwkDelegators.Deleg, req.Header.Height, j))))   // C12.unvisited-unchanged
+//@   invariant iter1: forall j int :: 0 <= j && j < $n ==> bal(ctx.balances)[balKey(bytes(ndScanA(ctx.netwkDelegators.Deleg, req.Header.Height, j)), "OLT")] >= old(bal(ctx.balances))[balKey(bytes(ndScanA(ctx.netwkDelegators.Deleg, req.Header.Height, j)), "OLT")] + old(ndPend(ctx.netwkDelegators.Deleg, req.Header.Height, bytes(ndScanA(ctx.netwkDelegators.Deleg, req.Header.Height, j))))   // C12.paid-to-delegator
+//@   invariant iter1: forall k string :: bal(ctx.balances)[k] >= old(bal(ctx.balances))[k]                                      // C03.nobody-debited
+//@   invariant iter1: forall cur string :: cur != "OLT" ==> balTotal(ctx.balances)[cur] == old(balTotal(ctx.balances))[cur]     // C02.conserve
+//@   invariant iter1: ndActTotal(ctx.netwkDelegators.Deleg) == old(ndActTotal(ctx.netwkDelegators.Deleg))                                                 // C12.active-untouched
+//@   invariant iter1: balTotal(ctx.balances)["OLT"] + ndPendTotal(ctx.netwkDelegators.Deleg) == old(balTotal(ctx.balances))["OLT"] + old(ndPendTotal(ctx.netwkDelegators.Deleg))   // C12.paid-equals-zeroed
+//@   ensures forall k string :: ndRaw(ctx.netwkDelegators.Deleg)[k] == old(ndRaw(ctx.netwkDelegators.Deleg))[k] || (ndRaw(ctx.netwkDelegators.Deleg)[k] == 0 && ndIsPend(ctx.netwkDelegators.Deleg, k))   // C12.only-zeroing
+//@   ensures forall j int :: 0 <= j && j < ndScanCount(ctx.netwkDelegators.Deleg, req.Header.Height) ==> ndPend(ctx.netwkDelegators.Deleg, req.Header.Height, bytes(ndScanA(ctx.netwkDelegators.Deleg, req.Header.Height, j))) == 0               // C12.paid-record-cleared
+//@   ensures forall j int :: 0 <= j && j < ndScanCount(ctx.netwkDelegators.Deleg, req.Header.Height) ==> bal(ctx.balances)[balKey(bytes(ndScanA(ctx.netwkDelegators.Deleg, req.Header.Height, j)), "OLT")] >= old(bal(ctx.balances))[balKey(bytes(ndScanA(ctx.netwkDelegators.Deleg, req.Header.Height, j)), "OLT")] + old(ndPend(ctx.netwkDelegators.Deleg, req.Header.Height, bytes(ndScanA(ctx.netwkDelegators.Deleg, req.Header.Height, j))))   // C12.paid-to-delegator
+//@   ensures forall k string :: bal(ctx.balances)[k] >= old(bal(ctx.balances))[k]                                               // C03.nobody-debited
+//@   ensures forall cur string :: cur != "OLT" ==> balTotal(ctx.balances)[cur] == old(balTotal(ctx.balances))[cur]              // C02.conserve
+//@   ensures ndActTotal(ctx.netwkDelegators.Deleg) == old(ndActTotal(ctx.netwkDelegators.Deleg))                                                          // C12.active-untouched
+//@   ensures balTotal(ctx.balances)["OLT"] + ndPendTotal(ctx.netwkDelegators.Deleg) == old(balTotal(ctx.balances))["OLT"] + old(ndPendTotal(ctx.netwkDelegators.Deleg))     // C12.paid-equals-zeroed
+
+// ================================================================ matureDelegationRewards (reward withdrawals)
+//
+// H = req.Header.Height, R = appCtx.netwkDelegators.Rewards, B = appCtx.balances.
+// R.IteratePD(H) visits exactly the pending reward records of height H (its prefix ends with the separator;
+// assumed, see data/network_delegation).
+//@ func matureDelegationRewards
+//@   requires appCtx != nil && appCtx.netwkDelegators != nil && appCtx.netwkDelegators.Deleg != nil && appCtx.netwkDelegators.Rewards != nil && appCtx.balances != nil && req != nil && kvMap != nil && curOK(appCtx.currencies) && has(appCtx.currencies.nameMap, "OLT")
+//@   requires forall k string :: ndRRaw(appCtx.netwkDelegators.Rewards)[k] >= 0                                                   // C12.records-non-negative
+//@   modifies appCtx.netwkDelegators.Deleg.State, appCtx.netwkDelegators.Rewards.state, appCtx.balances.State, mapof(kvMap), ndRRaw(appCtx.netwkDelegators.Rewards), ndRPendTotal(appCtx.netwkDelegators.Rewards), bal(appCtx.balances), balTotal(appCtx.balances), vHas(appCtx.deliver), vVal(appCtx.deliver)
+//@   invariant iter1: !$stopped && rewardsStore == appCtx.netwkDelegators.Rewards && balanceStore == appCtx.balances && height == req.Header.Height && c.Name == "OLT" && kvMap != nil && kvMap == kvMap0
+//@   invariant iter1: forall k string :: ndRRaw(appCtx.netwkDelegators.Rewards)[k] >= 0                                           // C12.records-non-negative
+//@   invariant iter1: forall k string :: ndRRaw(appCtx.netwkDelegators.Rewards)[k] == old(ndRRaw(appCtx.netwkDelegators.Rewards))[k] || (ndRRaw(appCtx.netwkDelegators.Rewards)[k] == 0 && ndRKind(k) == 3)   // C12.only-zeroing
+//@   invariant iter1: forall j int :: 0 <= j && j < $n ==> ndRewPend(appCtx.netwkDelegators.Rewards, req.Header.Height, bytes(ndPDA(appCtx.netwkDelegators.Rewards, req.Header.Height, j))) == 0   // C12.visited-zeroed
+//@   invariant iter1: forall j int :: $n <= j && j < ndPDCount(appCtx.netwkDelegators.Rewards, req.Header.Height) ==> ndRewPend(appCtx.netwkDelegators.Rewards, req.Header.Height, bytes(ndPDA(appCtx.netwkDelegators.Rewards, req.Header.Height, j))) == old(ndRewPend(appCtx.netwkDelegators.Rewards, req.Header.Height, bytes(ndPDA(appCtx.netwkDelegators.Rewards, req.Header.Height, j))))   // C12.unvisited-unchanged
+//@   invariant iter1: forall j int :: 0 <= j && j < $n ==> bal(appCtx.balances)[balKey(bytes(ndPDA(appCtx.netwkDelegators.Rewards, req.Header.Height, j)), "OLT")] >= old(bal(appCtx.balances))[balKey(bytes(ndPDA(appCtx.netwkDelegators.Rewards, req.Header.Height, j)), "OLT")] + old(ndRewPend(appCtx.netwkDelegators.Rewards, req.Header.Height, bytes(ndPDA(appCtx.netwkDelegators.Rewards, req.Header.Height, j))))   // C12.paid-to-delegator
+//@   invariant iter1: forall k string :: bal(appCtx.balances)[k] >= old(bal(appCtx.balances))[k]                                  // C03.nobody-debited
+//@   invariant iter1: forall cur string :: cur != "OLT" ==> balTotal(appCtx.balances)[cur] == old(balTotal(appCtx.balances))[cur] // C02.conserve
+//@   invariant iter1: balTotal(appCtx.balances)["OLT"] + ndRPendTotal(appCtx.netwkDelegators.Rewards) == old(balTotal(appCtx.balances))["OLT"] + old(ndRPendTotal(appCtx.netwkDelegators.Rewards))   // C12.paid-equals-zeroed
+//@   ensures forall k string :: ndRRaw(appCtx.netwkDelegators.Rewards)[k] == old(ndRRaw(appCtx.netwkDelegators.Rewards))[k] || (ndRRaw(appCtx.netwkDelegators.Rewards)[k] == 0 && ndRKind(k) == 3)   // C12.only-zeroing
+//@   ensures forall j int :: 0 <= j && j < ndPDCount(appCtx.netwkDelegators.Rewards, req.Header.Height) ==> ndRewPend(appCtx.netwkDelegators.Rewards, req.Header.Height, bytes(ndPDA(appCtx.netwkDelegators.Rewards, req.Header.Height, j))) == 0   // C12.visited-zeroed
+//@   ensures forall j int :: 0 <= j && j < ndPDCount(appCtx.netwkDelegators.Rewards, req.Header.Height) ==> bal(appCtx.balances)[balKey(bytes(ndPDA(appCtx.netwkDelegators.Rewards, req.Header.Height, j)), "OLT")] >= old(bal(appCtx.balances))[balKey(bytes(ndPDA(appCtx.netwkDelegators.Rewards, req.Header.Height, j)), "OLT")] + old(ndRewPend(appCtx.netwkDelegators.Rewards, req.Header.Height, bytes(ndPDA(appCtx.netwkDelegators.Rewards, req.Header.Height, j))))   // C12.paid-to-delegator
+//@   ensures forall k string :: bal(appCtx.balances)[k] >= old(bal(appCtx.balances))[k]                                           // C03.nobody-debited
+//@   ensures forall cur string :: cur != "OLT" ==> balTotal(appCtx.balances)[cur] == old(balTotal(appCtx.balances))[cur]          // C02.conserve
+//@   ensures balTotal(appCtx.balances)["OLT"] + ndRPendTotal(appCtx.netwkDelegators.Rewards) == old(balTotal(appCtx.balances))["OLT"] + old(ndRPendTotal(appCtx.netwkDelegators.Rewards))   // C12.paid-equals-zeroed
